@@ -302,27 +302,28 @@ func (f *OrefaFile) ReadDir(n int) ([]fs.DirEntry, error) {
 		return nil, &fs.PathError{Op: op, Path: f.name, Err: f.vfs.err.NotADirectory}
 	}
 
-	if n <= 0 || f.dirEntries == nil {
+	if f.dirEntries == nil {
+		// First call on this handle (or an empty directory): take the listing the batches are cut from.
 		nd.mu.RLock()
-		de := nd.dirEntries()
+		f.dirEntries = nd.dirEntries()
 		nd.mu.RUnlock()
 
 		f.dirIndex = 0
-
-		if n <= 0 {
-			f.dirEntries = nil
-
-			return de, nil
-		}
-
-		f.dirEntries = de
 	}
 
 	start := f.dirIndex
-	if start >= len(f.dirEntries) {
-		f.dirIndex = 0
-		f.dirEntries = nil
+	if start > len(f.dirEntries) {
+		start = len(f.dirEntries)
+	}
 
+	if n <= 0 {
+		// Everything that remains, as os.File does; nothing remains afterwards.
+		f.dirIndex = len(f.dirEntries)
+
+		return f.dirEntries[start:], nil
+	}
+
+	if start >= len(f.dirEntries) {
 		return nil, io.EOF
 	}
 
@@ -379,27 +380,28 @@ func (f *OrefaFile) Readdirnames(n int) (names []string, err error) {
 		return nil, &fs.PathError{Op: op, Path: f.name, Err: f.vfs.err.NotADirectory}
 	}
 
-	if n <= 0 || f.dirNames == nil {
+	if f.dirNames == nil {
+		// First call on this handle (or an empty directory): take the listing the batches are cut from.
 		nd.mu.RLock()
-		names = nd.dirNames()
+		f.dirNames = nd.dirNames()
 		nd.mu.RUnlock()
 
 		f.dirIndex = 0
-
-		if n <= 0 {
-			f.dirNames = nil
-
-			return names, nil
-		}
-
-		f.dirNames = names
 	}
 
 	start := f.dirIndex
-	if start >= len(f.dirNames) {
-		f.dirIndex = 0
-		f.dirNames = nil
+	if start > len(f.dirNames) {
+		start = len(f.dirNames)
+	}
 
+	if n <= 0 {
+		// Everything that remains, as os.File does; nothing remains afterwards.
+		f.dirIndex = len(f.dirNames)
+
+		return f.dirNames[start:], nil
+	}
+
+	if start >= len(f.dirNames) {
 		return nil, io.EOF
 	}
 
